@@ -70,6 +70,8 @@ func c06Patches() []c06Patch {
 		one("nearmiss-file-variadic", "@@\nvar x expression\n@@\n-spread(x)\n+mark(x)\n"),
 		one("nearmiss-file-alias", "@@\n@@\n-type Alias2 S\n+type mark S\n"),
 		one("nearmiss-file-grouped", "@@\n@@\n-var G = 1\n+var mark = 1\n"),
+		one("nearmiss-label-expr", "@@\nvar L expression\n@@\n-break L\n+continue L\n"),
+		one("nearmiss-label-ident", "@@\nvar L identifier\n@@\n-break L\n+continue L\n"),
 		one("nearmiss-for-header", "@@\nvar x identifier\n@@\n for i := 0; ...; i++ {\n-  _ = x\n+  mark(x)\n }\n"),
 		one("nearmiss-for-header-init", "@@\nvar x identifier\n@@\n for i := 0; ...; {\n-  _ = x\n+  mark(x)\n }\n"),
 		one("two-changes", "@@\n@@\n-nomatch1()\n+mark()\n\n# second\n@ second @\nvar x expression\n@@\n-nomatch2(x)\n+mark(x)\n"),
@@ -90,7 +92,7 @@ func c06Files() []c06File {
 		{"no-imports", "", ""},
 	}
 	body := func(pkgfmt string) string {
-		return "// S is a struct.\ntype S struct {\n\tA int `json:\"a\"`\n}\n\ntype Alias S\n\nconst C = 1\n\n// F does things.\nfunc F(a int, b string) (int, error) {\n\tx := a + 1 // trailing\n\tif x > 2 {\n\t\t" + pkgfmt + "Println(x, b)\n\t}\n\ts := append([]int{}, x)\n\t_ = s\n\tspread(s...)\n\tother.Nomatch()\n\tother.Nomatch(1)\n\tfor range s {\n\t\t_ = x\n\t}\n\treturn x, nil\n}\n\ntype Alias2 = S\n\nvar (\n\tG = 1\n)\n"
+		return "// S is a struct.\ntype S struct {\n\tA int `json:\"a\"`\n}\n\ntype Alias S\n\nconst C = 1\n\n// F does things.\nfunc F(a int, b string) (int, error) {\n\tx := a + 1 // trailing\n\tif x > 2 {\n\t\t" + pkgfmt + "Println(x, b)\n\t}\n\ts := append([]int{}, x)\n\t_ = s\n\tspread(s...)\n\tfor {\n\t\tbreak\n\t}\n\tother.Nomatch()\n\tother.Nomatch(1)\n\tfor range s {\n\t\t_ = x\n\t}\n\treturn x, nil\n}\n\ntype Alias2 = S\n\nvar (\n\tG = 1\n)\n"
 	}
 	var out []c06File
 	for _, b := range bases {
